@@ -3,7 +3,7 @@ import asyncio
 
 import random
 
-from harness.legs import cfg_text, leg_m, leg_mutant, leg_r, leg_t_gen
+from harness.legs import cfg_text, gen_traces, leg_m, leg_mutant, leg_r, leg_t_gen
 from harness.vloop import VClock, VLoop
 
 SPEC = "CacheFlight"
@@ -220,7 +220,7 @@ def run(rep, work, tier, seed):
     # leg T: longer random interleavings (4 callers, 3 keys, ~40 operations) validated by a trace module generated from
     # CacheFlight.tla
     rnd = random.Random(seed * 23 + 11)
-    traces = [gen_trace(rnd) for _ in range(150 if tier == "quick" else 2000)]
+    traces = gen_traces(rep, lambda: gen_trace(rnd), 150 if tier == "quick" else 2000)
     leg_t_gen(rep, work, SPEC, f"trace_{tier}", traces,
               variables=["limit", "expn", "now", "entries", "invs", "cl", "cpend", "rdy", "nops", "obs"],
               constants=dict(NCallers=4, NKeys=3, Limits="1..3", Expirations="{0, 2, 3}", MaxT=100000, MaxOps=100000,
